@@ -9,6 +9,8 @@ from .. import common, refcodec, reflayout, shapes
 from ..schema import U, I, F32, F64, Arr, St, enum_with_max, Hoister, print_schema, type_str, struct_decl
 from ..common import Stats, Run, pmap, chunks, fork_histories
 
+# nested struct declared out of field-id order: the layout must still follow the ids
+OOO = ("st", (("a", 1, U(3)), ("b", 0, I(6))))
 ENUM_MAX = (0, 1, 2, 3, 4, 7, 8, 15, 16, 31, 32, 63, 64, 127, 128, 255, 256, 65535)
 
 
@@ -19,12 +21,12 @@ def alphabet(tier):
         a += [U(w), I(w)]
     a += [F32, F64]
     a += [enum_with_max(m) for m in ENUM_MAX]
-    a += [St(U(3)), St(U(3), St(I(5), F32)), St(enum_with_max(5), U(2))]
+    a += [St(U(3)), St(U(3), St(I(5), F32)), St(enum_with_max(5), U(2)), OOO, Arr(OOO, 2), St(U(1), OOO)]
     a += [Arr(U(8), 2), Arr(I(5), 3), Arr(St(U(3), I(6)), 2), Arr(Arr(U(4), 2), 2), Arr(enum_with_max(5), 2), Arr(F32, 1)]
     return a
 
 
-REPS = [U(3), I(13), F32, enum_with_max(5), enum_with_max(16), St(U(3), I(6)), Arr(U(4), 2), Arr(St(U(1), enum_with_max(2)), 2), U(64), Arr(Arr(I(5), 2), 2)]
+REPS = [U(3), I(13), F32, enum_with_max(5), enum_with_max(16), St(U(3), I(6)), Arr(U(4), 2), Arr(St(U(1), enum_with_max(2)), 2), U(64), Arr(Arr(I(5), 2), 2), Arr(OOO, 2)]
 REPS4 = [U(3), I(13), enum_with_max(5), St(U(3), I(6)), Arr(U(4), 2), F32, Arr(St(U(1), enum_with_max(2)), 2), enum_with_max(0)]
 
 
@@ -208,6 +210,15 @@ HIST_SCHEMAS = [
         ("impl", "can", "A", None, (("id", 1),), (("a", (("endianess", "big"),)),)),
         ("impl", "can", "B", None, (("id", 2),), ()),
         ("impl", "can", "X", None, (("id", 3),), ()),
+    ],
+    [
+        # bindings that share field names but declare different per-signal options
+        ("struct", "A", (("a", 0, U(8), None, None), ("b", 1, U(16), None, None))),
+        ("struct", "B", (("a", 0, U(8), None, None), ("b", 1, U(16), None, None), ("c", 2, U(8), None, None))),
+        ("struct", "X", (("a", 0, U(16), None, None), ("s", 1, ("str",), None, None))),
+        ("impl", "can", "A", None, (("id", 1),), (("b", (("endianess", "big"),)), ("a", (("mux_count", 2), ("mux_signal", "b"))))),
+        ("impl", "can", "B", None, (("id", 2),), (("a", (("endianess", "big"),)),)),
+        ("impl", "can", "X", None, (("id", 3),), (("a", (("endianess", "big"),)),)),
     ],
     [
         ("enum", "E", (("e0", 0), ("e1", 5))),
